@@ -102,6 +102,15 @@ def normalisation_idempotent(prog, chk):
         from sa import discharge as D
         conds = D.dom_conditions(ins, pb)
         guarded = any(kind == "call" and payload[0] == "contains" and not truth for kind, payload, truth in conds)
+        if not guarded:
+            # the same membership test spelled as a search: `iter().position(..)` / `find(..)` came back empty
+            for kind, payload, truth in conds:
+                if kind == "call" and payload[0] in ("is_none", "is_some") and truth == (payload[0] == "is_none") and payload[1] and payload[1][0][0] == "local":
+                    o = R.origin(ins, {"c": [payload[1][0][1], []]}, carriers={})
+                    if o[0] == "call" and "fn" in o[2] and Callee(o[2]["fn"]).path.split("::")[-1] in ("position", "find", "rposition"):
+                        it = R.origin(ins, o[2]["args"][0], carriers={"iter": 0, "deref": 0, "into_iter": 0})
+                        if it[0] == "field" and it[1][1] and it[1][1][-1] == ".classes":
+                            guarded = True
     chk.ob(
         only_insert and guarded,
         "A10.classlist-unique",
